@@ -269,6 +269,11 @@ func (e *Enc) staticCall(f *frame, st *State, in *ssa.Call, callee *ssa.Function
 	} else {
 		e.noteHavoc("call " + name)
 	}
+	if e.fc != nil && e.fc.HasModifies && e.noObl == 0 {
+		if bad := e.notAllowedNames(mods, top); len(bad) > 0 {
+			e.oblige("frame", "call:"+name+"@"+e.site(in), in.Pos(), "false", e.frameProps(), "callee may write "+strings.Join(bad, ","))
+		}
+	}
 	preH := st.clone()
 	e.havocHeaps(st, mods, top, "", false)
 	e.preserveLocals(f, in, preH, st)
@@ -396,8 +401,10 @@ func (e *Enc) contractCall(f *frame, st *State, in *ssa.Call, callee *ssa.Functi
 		e.havocHeaps(st, mods, top, "", false)
 		e.preserveLocals(f, in, pre, st)
 		e.havocGhosts(st, mods, top)
-		if e.fc != nil && e.fc.HasModifies && e.noObl == 0 && (top || len(heapNames(mods)) > 0) {
-			e.oblige("frame", "call:"+name+"@"+e.site(in), in.Pos(), "false", e.frameProps(), "callee without modifies clause may write "+strings.Join(heapNames(mods), ","))
+		if e.fc != nil && e.fc.HasModifies && e.noObl == 0 {
+			if bad := e.notAllowedNames(mods, top); len(bad) > 0 {
+				e.oblige("frame", "call:"+name+"@"+e.site(in), in.Pos(), "false", e.frameProps(), "callee without modifies clause may write "+strings.Join(bad, ","))
+			}
 		}
 	}
 	nn := e.fresh("next", "Int")
@@ -685,8 +692,10 @@ func (e *Enc) invoke(f *frame, st *State, in *ssa.Call, recv Val, args []Val, re
 		// only the implementation selected by the dynamic type runs
 		e.havocByType(st, recv.Sub[0].T, byType, nil)
 		e.havocGhosts(st, mods, false)
-		if e.fc != nil && e.fc.HasModifies && e.noObl == 0 && len(heapNames(mods)) > 0 {
-			e.oblige("frame", "invoke:"+key+"@"+e.site(in), in.Pos(), "false", e.frameProps(), "interface method may write "+strings.Join(heapNames(mods), ","))
+		if e.fc != nil && e.fc.HasModifies && e.noObl == 0 {
+			if bad := e.notAllowedNames(mods, false); len(bad) > 0 {
+				e.oblige("frame", "invoke:"+key+"@"+e.site(in), in.Pos(), "false", e.frameProps(), "interface method may write "+strings.Join(bad, ","))
+			}
 		}
 		nn := e.fresh("next", "Int")
 		e.assume(fmt.Sprintf("(>= %s %s)", nn, st.next))
@@ -702,8 +711,10 @@ func (e *Enc) invoke(f *frame, st *State, in *ssa.Call, recv Val, args []Val, re
 	e.havocHeaps(st, mods, top, "", false)
 	e.preserveLocals(f, in, preH, st)
 	e.havocGhosts(st, mods, top)
-	if e.fc != nil && e.fc.HasModifies && e.noObl == 0 && (top || len(heapNames(mods)) > 0) {
-		e.oblige("frame", "invoke:"+key+"@"+e.site(in), in.Pos(), "false", e.frameProps(), "interface method may write "+strings.Join(heapNames(mods), ","))
+	if e.fc != nil && e.fc.HasModifies && e.noObl == 0 {
+		if bad := e.notAllowedNames(mods, top); len(bad) > 0 {
+			e.oblige("frame", "invoke:"+key+"@"+e.site(in), in.Pos(), "false", e.frameProps(), "interface method may write "+strings.Join(bad, ","))
+		}
 	}
 	nn := e.fresh("next", "Int")
 	e.assume(fmt.Sprintf("(>= %s %s)", nn, st.next))
@@ -844,4 +855,32 @@ func (e *Enc) implPost(f *frame, st, pre *State, in *ssa.Call, recv Val, args []
 		}
 		e.usedContracts[e.w.funcName(ic.fn)] = true
 	}
+}
+
+// notAllowedNames: heaps of a computed (type-level) mod-set that the current
+// function's modifies clause does not allow at type level.
+func (e *Enc) notAllowedNames(mods map[string]bool, top bool) []string {
+	if top {
+		return []string{"anything"}
+	}
+	var bad []string
+	for _, n := range heapNames(mods) {
+		ok := false
+		for _, m := range e.fc.Modifies {
+			pre := strings.TrimSuffix(m, ".*")
+			if m == "fresh" {
+				continue
+			}
+			if _, isParam := e.paramByName(pre); isParam && strings.HasSuffix(m, ".*") {
+				continue
+			}
+			if n == pre || strings.HasPrefix(n, pre+".") || strings.HasPrefix(n, pre+"[") || strings.HasPrefix(n, pre+"#") {
+				ok = true
+			}
+		}
+		if !ok {
+			bad = append(bad, n)
+		}
+	}
+	return bad
 }
